@@ -455,7 +455,71 @@ func ruleAppendDoesNotAlias(c *Ctx, rule string, keys ...string) {
 					}
 				}
 			}
-			c.R.Add(rule, k, "append:"+bap+"/stored-back-or-copied", c.pos(in), storedBack, ifelse(storedBack, "the list is extended in place and kept by its owner", "append("+bap+", …) builds a derived list on top of a slice that stays shared: with spare capacity the next derivation overwrites the elements of this one (routers created later get another router's options)"))
+			// two holders are needed for harm: the base stays where it is, and the derived list is kept as well (stored,
+			// captured, returned, or handed to a module function that keeps it) — or the base is the caller's own memory.
+			// A derived list that is consumed during the call (NewRouter(…, o...)) shares nothing afterwards.
+			kept := strings.HasPrefix(bap, "p:")
+			if v, isVal := in.(ssa.Value); isVal && !kept {
+				var flows func(x ssa.Value, depth int) bool
+				flows = func(x ssa.Value, depth int) bool {
+					if depth > 3 {
+						return false
+					}
+					for _, r := range *x.Referrers() {
+						switch y := r.(type) {
+						case *ssa.Store:
+							if y.Val == x {
+								if _, isFA := y.Addr.(*ssa.FieldAddr); isFA {
+									return true
+								}
+								if _, isG := y.Addr.(*ssa.Global); isG {
+									return true
+								}
+								if cell, isCell := y.Addr.(*ssa.Alloc); isCell {
+									// a local variable: follow its loads
+									for _, cr := range *cell.Referrers() {
+										if ld, isLd := cr.(*ssa.UnOp); isLd && flows(ld, depth+1) {
+											return true
+										}
+										if _, isMC := cr.(*ssa.MakeClosure); isMC {
+											return true
+										}
+									}
+								}
+							}
+						case *ssa.MakeClosure:
+							return true
+						case *ssa.Return:
+							return true
+						case *ssa.Phi:
+							if flows(y, depth+1) {
+								return true
+							}
+						case *ssa.Slice:
+							if flows(y, depth+1) {
+								return true
+							}
+						case *ssa.Call:
+							g := an.StaticCallee(&y.Call)
+							if g == nil {
+								return true // a dynamic callee may keep it
+							}
+							if !an.InModule(g) || len(g.Blocks) == 0 {
+								continue
+							}
+							for i, arg := range an.CallArgs(&y.Call) {
+								if arg == x && i < len(g.Params) && sliceKeeps(c, an.Origin(g), an.Origin(g).Params[i], 0) != "" {
+									return true
+								}
+							}
+						}
+					}
+					return false
+				}
+				kept = flows(v, 0)
+			}
+			good := storedBack || !kept
+			c.R.Add(rule, k, "append:"+bap+"/stored-back-or-copied", c.pos(in), good, ifelse(good, ifelse(storedBack, "the list is extended in place and kept by its owner", "the derived list is consumed during the call: nothing keeps it next to its base"), "append("+bap+", …) builds a derived list on top of a slice that stays shared, and the derived list is kept: with spare capacity the next derivation overwrites the elements of this one (routers created later get another router's options)"))
 		})
 	}
 }
